@@ -283,6 +283,20 @@ def check(prop, tier, seed, only=None, quiet=False):
                     violations.append(("proof-broken", {"broken": "theorem %s depends on non-allowed axioms" % n, "axioms": extra}))
     discharged = len([n for n in theorems if n in assum and all(a.split(".")[-1] in ALLOWED_AXIOMS for a in assum[n])]) if proofs_ok else 0
 
+    # 1b. thorough tier: re-check the compiled property file and everything it depends on with
+    # the independent checker, and read the axioms it reports
+    coqchk_summary = None
+    if proofs_ok and tier == "thorough":
+        with Lock("coq"):
+            rcc, outc = sh(["coqchk", "-silent", "-o", "-Q", "theories", "Noir", "Noir.Props.%s" % prop], 3000, cwd=COQ)
+        m = re.search(r"\* Axioms:(.*?)\n\s*\n\* Constants/Inductives relying on type-in-type", outc, re.S)
+        axioms_reported = m.group(1).strip() if m else "?"
+        coqchk_summary = {"rc": rcc, "axioms": axioms_reported}
+        if rcc != 0 or axioms_reported != "<none>":
+            proofs_ok = False
+            discharged = 0
+            violations.append(("proof-broken", {"broken": "coqchk on Props/%s.vo: rc=%s axioms=%s" % (prop, rcc, axioms_reported), "output": outc[-2000:]}))
+
     # 2. implementation runs
     meta = {}
     results = []
@@ -358,6 +372,7 @@ def check(prop, tier, seed, only=None, quiet=False):
         "known_findings_reproduced": sorted(known_hit.keys()),
         "exhaustive": False,
         "explanation": reg.get("explanation", ""),
+        "coqchk": coqchk_summary,
         "extra": meta.get("extra", {}),
     }
     write_evidence(prop, tier, seed, coverage, reg.get("assumptions", []), wall, len(violations))
